@@ -53,12 +53,16 @@ def plan_hypothesis(st):
 
 def oracle_trace(ctx, case, static, trace, feasible=False):
     stat = {st["site"]: st for st in static}
+    conf = {s_["id"]: s_ for s_ in case.get("sites", [])}
     issued_on = {}     # site -> date of the outstanding request
     prev = {st["site"]: {"queued": 0, "done": {}} for st in static}
     stationary = case["kind"] == "stationary"
     for k, rec in enumerate(trace):
         y, m, d = rec["date"]
         inp = {"case": case, "day": k, "date": rec["date"]}
+        if rec["crash"] and rec["crash"] != "key_error":
+            ctx.violate("C06:crash:" + rec["crash"], f"{rec['crash']} raised by the schedule on {rec['date']}", inp)
+            break
         if rec["crash"]:
             # which lookup raised?  guard lookup: a planner whose deployment years contain y but whose
             # counter dict does not; otherwise the completion booking
@@ -68,6 +72,10 @@ def oracle_trace(ctx, case, static, trace, feasible=False):
                         f"KeyError on {rec['date']}: year not in the planner's counter dict "
                         f"{static[0]['sim_years']}", inp)
             break
+        if rec.get("n_puts") is not None and rec["n_puts"] != len(rec["issued"]):
+            ctx.violate("C06:guard:request-without-flag-change",
+                        f"{rec['n_puts']} requests entered the queue on {rec['date']}, {len(rec['issued'])} planners "
+                        f"changed their queued flag", inp)
         # ---- guard of every issued request (independent re-evaluation)
         for i in rec["issued"]:
             st = stat[i]
@@ -114,8 +122,11 @@ def oracle_trace(ctx, case, static, trace, feasible=False):
                 ctx.violate(SIG_MONTH if carried else "C06:calendar:survey-outside-deployment-month",
                             f"site {i} surveyed on {rec['date']} (request of {issued_on.get(i)}), "
                             f"deployment months {st['months']}", inp)
-            if st["rs"] == 0:
-                ctx.violate("C06:calendar:survey-where-not-deployed", f"site {i} has required 0", inp)
+            cs = conf.get(i, {})
+            if st["rs"] == 0 or not cs.get("deploy", True) or (not stationary and cs.get("freq", 1) is None):
+                ctx.violate("C06:calendar:survey-where-method-not-deployed",
+                            f"site {i} surveyed on {rec['date']} although the method is not deployed there "
+                            f"(deploy={cs.get('deploy')}, frequency={cs.get('freq')}, planner requires {st['rs']})", inp)
         # ---- counters
         for p in rec["planners"]:
             i = p["site"]
@@ -280,8 +291,22 @@ def plan_stage(ctx):
                 good += 1
             else:
                 bad.append((months, f, pl))
-    ctx.extra["plan_hypothesis"] = {"pairs": good + len(bad), "holds": good, "fails": len(bad), "raises": err,
-                                    "month_subsets": len(subsets)}
+    # contiguous seasons (what the documentation's examples use): all 78 ranges x 24 frequencies, every run
+    cont_bad = 0
+    for a in range(1, 13):
+        for b in range(a, 13):
+            months = list(range(a, b + 1))
+            for f in range(1, 25):
+                pl = A.real_plan(months, f)
+                md = [tuple(p[:2]) for p in pl]
+                ctx.evaluations += 1
+                if not (len(pl) == f and all(x < y for x, y in zip(md, md[1:])) and all(p[0] in months for p in pl)
+                        and all(p[2] == 2023 for p in pl)):
+                    cont_bad += 1
+                    bad.append((months, f, pl))
+    ctx.extra["plan_hypothesis"] = {"pairs": good + len(bad) - cont_bad, "holds": good, "fails": len(bad) - cont_bad,
+                                    "raises": err, "month_subsets": len(subsets),
+                                    "contiguous_ranges_pairs": 78 * 24, "contiguous_ranges_fail": cont_bad}
     ctx.count("plan_pairs_hypothesis_holds", good)
     ctx.count("plan_pairs_hypothesis_fails", len(bad))
     # where the hypothesis fails: does the real planner still reach the count in a full feasible year?
@@ -407,7 +432,7 @@ def witnesses(ctx):
           "crews": 1, "cap": 1, "T": 0, "hours": 8, "weather": [], "forced": [],
           "sites": [site(1, 12, list(range(1, 13)), [2025, 2026])]}
     metas = run_loop_cases(ctx, [w1, w2, w3, w4, w5], tag="witness")
-    dates3 = [rec["date"] for rec in metas[2][2] if any(o[1] == "C" for o in rec["outcomes"])]
+    dates3 = [rec["date"] for rec in metas[2][2] if any(o[1] == "C" for o in rec.get("outcomes") or [])]
     ctx.extra["witness_F12_survey_dates"] = dates3
     # C06_feasible_counterexample: the plan literal of the Lean witness is what the real generator returns
     lit = [[2, 1], [2, 23], [5, 17], [11, 8]]
@@ -419,9 +444,10 @@ def witnesses(ctx):
     w6["end"] = [2025, 12, 31]
     w6["ndays"] = 731
     m6 = run_loop_cases(ctx, [w6], feasible=True, tag="witness")
-    ctx.extra["witness_F15_done_per_year"] = m6[0][2][-1]["planners"][0]["done"]
+    f15 = m6[0][2][-1]["planners"][0]["done"] if not m6[0][2][-1]["crash"] else None
+    ctx.extra["witness_F15_done_per_year"] = f15
     ctx.sample({"witness": "F12 January-only, five sites, one survey a day", "survey_dates": dates3})
-    ctx.sample({"witness": "F15 months [2,5,10] x 4", "plan": real, "done_per_year": m6[0][2][-1]["planners"][0]["done"]})
+    ctx.sample({"witness": "F15 months [2,5,10] x 4", "plan": real, "done_per_year": f15})
 
 
 # ------------------------------------------------------------------------------------------------
@@ -469,7 +495,7 @@ def replay(ctx, data):
     from harness.adapters import sched as A
 
     inp = data.get("input", {})
-    if inp.get("wholerun"):
+    if inp.get("wholerun") or (inp.get("case") or {}).get("wholerun"):
         from harness.props import _sched_wholerun as W
 
         return W.replay_c06(ctx, inp)
